@@ -24,6 +24,7 @@ import (
 	"errors"
 	"fmt"
 	"io"
+	"os"
 	"sort"
 	"strings"
 	"syscall"
@@ -627,8 +628,8 @@ func panicSig(p string) string {
 	case len(msg) > 60:
 		msg = msg[:60]
 	}
-	fn := "?"
-	for _, l := range lines[1:] {
+	fn, src := "?", ""
+	for k, l := range lines[1:] {
 		l = strings.TrimSpace(l)
 		if strings.Contains(l, "/Control/executor") && !strings.HasPrefix(l, "/") {
 			if i := strings.LastIndex(l, "/"); i >= 0 {
@@ -638,10 +639,58 @@ func panicSig(p string) string {
 				l = l[:i]
 			}
 			fn = l
+			if k+2 < len(lines) {
+				src = sourceLine(strings.TrimSpace(lines[k+2]))
+			}
 			break
 		}
 	}
+	if src != "" {
+		fn += "{" + src + "}"
+	}
 	return msg + "@" + fn + "/child-" + childState()
+}
+
+var overlayMap map[string]string
+
+// sourceLine: the text of the statement a stack frame ("<file>:<line> +0x..") points at, read from the file the
+// binary was built from (the instrumented copy named by the build overlay, VERIF_OVERLAY), squeezed and cut: two
+// crashes in one function are different findings when they happen at different statements.
+func sourceLine(frame string) string {
+	if i := strings.Index(frame, " "); i > 0 {
+		frame = frame[:i]
+	}
+	i := strings.LastIndex(frame, ":")
+	if i < 0 {
+		return ""
+	}
+	file, ln := frame[:i], 0
+	fmt.Sscanf(frame[i+1:], "%d", &ln)
+	if overlayMap == nil {
+		overlayMap = map[string]string{}
+		if b, err := os.ReadFile(os.Getenv("VERIF_OVERLAY")); err == nil {
+			var o struct{ Replace map[string]string }
+			if json.Unmarshal(b, &o) == nil {
+				overlayMap = o.Replace
+			}
+		}
+	}
+	if r, ok := overlayMap[file]; ok {
+		file = r
+	}
+	b, err := os.ReadFile(file)
+	if err != nil || ln <= 0 {
+		return ""
+	}
+	ls := strings.Split(string(b), "\n")
+	if ln > len(ls) {
+		return ""
+	}
+	t := strings.Join(strings.Fields(ls[ln-1]), "")
+	if len(t) > 40 {
+		t = t[:40]
+	}
+	return strings.NewReplacer(":", ";", ",", ";", "*", "x", "?", "q", "[", "(", "]", ")").Replace(t)
 }
 
 // lastRoot is the last process the executor itself started.
